@@ -701,7 +701,7 @@ func run(r *core.Run) {
 	for _, g := range []struct {
 		name string
 		f    func(*core.Run)
-	}{{"identity", identityCases}, {"server", serverCases}, {"fake", fakeWorlds}, {"grpc", grpcCases}, {"translator", translatorCases},
+	}{{"identity", identityCases}, {"chain", chainCases}, {"server", serverCases}, {"fake", fakeWorlds}, {"grpc", grpcCases}, {"translator", translatorCases},
 		{"tokens", tokenCases}, {"tokcol", tokColCases}, {"stores", realStores}} {
 		if only == "" || strings.Contains(","+only+",", ","+g.name+",") {
 			g.f(r)
